@@ -73,7 +73,10 @@ def gen_case(rng: random.Random, tier: str):
             "n_sched": 16 if tier == "quick" else 60, "trace_enum": rng.random() < 0.3, "opcodes": False,
             "schedules": None, "order": rng.sample(range(nthreads), nthreads),
             # tuning knob: capacity of the library's module-level caches for this case (None = as shipped)
-            "cache_size": rng.choice([None, None, 1, 2, 3, 5])}
+            "cache_size": rng.choice([None, None, 1, 2, 3, 5]),
+            # every thread's input favours long runs without terminators (null-terminated strings and arrays of 64+
+            # elements: block-wise or spilling scanners that keep scratch state between reads)
+            "long_data": rng.random() < 0.3}
 
 
 def _walk_pointers(v, out, depth=0):
@@ -230,7 +233,8 @@ def run_case(case, stats):
                 troot(s)
                 return s.tell()
 
-            r = gen.accepted_input(drng, p, start_len=24 + drng.randrange(40), stats=stats)
+            r = gen.accepted_input(drng, p, start_len=(160 + drng.randrange(200)) if case.get("long_data") else (24 + drng.randrange(40)), stats=stats,
+                                   long_runs=bool(case.get("long_data")))
             if r is None:
                 raise Discard("no_accepted_input")
             th["data"] = r[0][: r[1] + drng.randrange(4)].hex()
